@@ -11,6 +11,8 @@ import AdaptixModel.Retort.Threads
 import AdaptixProofs.Lemmas.ThreadsInv
 import AdaptixProofs.Lemmas.ThreadsProgress
 import AdaptixProofs.Lemmas.ThreadsCompile
+import AdaptixProofs.Lemmas.ThreadsTypedInv
+import AdaptixProofs.Lemmas.ThreadsSeq
 
 namespace Adaptix.Threads.C12
 
@@ -71,12 +73,11 @@ theorem every_thread_finishes (sys : Sys) (reqs : List (TyId × Nat)) (σ : List
   | none => rw [hres] at hsome; cases hsome
   | some res => exact ⟨th', res, h1, hdone, hres, h2, h2'⟩
 
-/-- **all_schedules_safe (partial).**  For any number of threads, any type graph and ANY schedule in which every
-    thread gets enough turns: the run completes (every thread is `done`) and every call has produced a result that
-    is not the unbound-stub failure.
-    Full-strength statement (additionally: every result equals the result of the sequential run,
-    `results (run σ) = results (run (sequentialSchedule …))`) is `all_schedules_safe` below, which needs the
-    typing invariant of `Lemmas/ThreadsTyped.lean`. -/
+/-- **all_schedules_safe (partial): completion and no unbound-stub call, with no hypothesis at all** on the type
+    graph, the fuel or the requested types: for any number of threads and ANY schedule in which every thread gets
+    enough turns, the run completes (every thread is `done`) and every call has produced a result that is not the
+    unbound-stub failure.  (`all_schedules_safe` below adds "= the sequential run" under the static check
+    `typed`.) -/
 theorem all_schedules_safe_partial (G : Graph) (fuel evalFuel : Nat) (reqs : List (TyId × Nat)) (σ : List Tid)
     (hturns : ∀ (t : Tid) (r : TyId × Nat), reqs[t]? = some r →
       stepBound (retort G .byId fuel evalFuel) r.1 ≤ σ.count t) :
@@ -88,6 +89,99 @@ theorem all_schedules_safe_partial (G : Graph) (fuel evalFuel : Nat) (reqs : Lis
     every_thread_finishes (retort G .byId fuel evalFuel) reqs σ t r hr (hturns t r hr)
   have hres := no_unbound_call G fuel evalFuel reqs σ t th h1
   exact ⟨th, res, h1, h2, h3, fun h => hres (by rw [h3, h])⟩
+
+/-- the schedule-independent static check of the requested types (see `typed` in the model): the request
+    program of every requested type is well-typed.  It holds for the `compile` output of every graph the
+    correspondence explores (the driver evaluates it) and is decided by evaluation for concrete graphs. -/
+def WellTyped (G : Graph) (fuel : Nat) (reqs : List (TyId × Nat)) : Prop :=
+  ∀ r ∈ reqs, typed G (compile G fuel r.1) r.1 = true
+
+/-- the typing invariant holds after any schedule -/
+theorem typed_inv (G : Graph) (fuel evalFuel : Nat) (reqs : List (TyId × Nat)) (hwt : WellTyped G fuel reqs)
+    (σ : List Tid) :
+    TInv G (retort G .byId fuel evalFuel) (run (retort G .byId fuel evalFuel) (init reqs) σ) :=
+  run_tinv (sys := retort G .byId fuel evalFuel) rfl σ
+    (init_inv _ reqs (fun r _ => compile_balanced G fuel r.1)) (tinit_inv G _ reqs hwt)
+
+/-- **Every result is the specified one, at any moment of any schedule**: whenever a call has returned, it has
+    returned the unfolding of its type along the datum (`unfold`, read off the type graph alone) — in particular
+    never an error, and independent of who created which closure. -/
+theorem every_result_is_the_unfolding (G : Graph) (fuel evalFuel : Nat) (reqs : List (TyId × Nat))
+    (hwt : WellTyped G fuel reqs) (σ : List Tid) (t : Tid) (th : Thread) (res : Res)
+    (h : (run (retort G .byId fuel evalFuel) (init reqs) σ).threads[t]? = some th)
+    (hres : th.result = some res) : res = unfold G evalFuel th.depth th.ty :=
+  ((typed_inv G fuel evalFuel reqs hwt σ).threads t th h).res res hres
+
+/-- results of a complete schedule -/
+theorem complete_results (G : Graph) (fuel evalFuel : Nat) (reqs : List (TyId × Nat))
+    (hwt : WellTyped G fuel reqs) (σ : List Tid)
+    (hturns : ∀ (t : Tid) (r : TyId × Nat), reqs[t]? = some r →
+      stepBound (retort G .byId fuel evalFuel) r.1 ≤ σ.count t) :
+    results (run (retort G .byId fuel evalFuel) (init reqs) σ) =
+      reqs.map (fun r => some (unfold G evalFuel r.2 r.1)) := by
+  apply List.ext_getElem?
+  intro t
+  simp only [results, List.getElem?_map]
+  cases hr : reqs[t]? with
+  | none =>
+    have : (init reqs).threads[t]? = none := by simp [init, hr]
+    rw [run_none _ t σ this]
+    rfl
+  | some r =>
+    obtain ⟨th, res, h1, _, h3, h4, h5⟩ :=
+      every_thread_finishes (retort G .byId fuel evalFuel) reqs σ t r hr (hturns t r hr)
+    have := every_result_is_the_unfolding G fuel evalFuel reqs hwt σ t th res h1 h3
+    rw [h1]
+    simp only [Option.map_some, h3, this, h4, h5]
+
+/-- **all_schedules_safe.**  For ANY number of threads, any type graph whose requested request programs pass the
+    static check, and ANY interleaving `σ` of the threads' atomic actions in which every thread gets enough turns
+    (unbounded: no bound on threads, preemptions or length): the run completes, no call meets an unbound stub,
+    and the results are exactly the results of the **sequential** run (the threads one after another on the same
+    shared retort) — both are the unfolding of each requested type. -/
+theorem all_schedules_safe (G : Graph) (fuel evalFuel : Nat) (reqs : List (TyId × Nat))
+    (hwt : WellTyped G fuel reqs) (σ : List Tid)
+    (hturns : ∀ (t : Tid) (r : TyId × Nat), reqs[t]? = some r →
+      stepBound (retort G .byId fuel evalFuel) r.1 ≤ σ.count t) :
+    allDone (run (retort G .byId fuel evalFuel) (init reqs) σ) = true ∧
+    (∀ res ∈ results (run (retort G .byId fuel evalFuel) (init reqs) σ), res ≠ some .unbound) ∧
+    results (run (retort G .byId fuel evalFuel) (init reqs) σ) =
+      results (run (retort G .byId fuel evalFuel) (init reqs)
+        (sequentialSchedule reqs.length (seqBound (retort G .byId fuel evalFuel) reqs))) := by
+  refine ⟨?_, ?_, ?_⟩
+  · simp only [allDone, List.all_eq_true]
+    intro th hth
+    obtain ⟨t, hlt, hget⟩ := List.getElem_of_mem hth
+    have hth' : (run (retort G .byId fuel evalFuel) (init reqs) σ).threads[t]? = some th := by
+      rw [List.getElem?_eq_getElem hlt, hget]
+    cases hr : reqs[t]? with
+    | none =>
+      have : (init reqs).threads[t]? = none := by simp [init, hr]
+      rw [run_none _ t σ this] at hth'
+      cases hth'
+    | some r =>
+      obtain ⟨th2, _, h1, h2, _⟩ :=
+        every_thread_finishes (retort G .byId fuel evalFuel) reqs σ t r hr (hturns t r hr)
+      rw [hth'] at h1
+      cases h1
+      simp [h2]
+  · intro res hres hu
+    simp only [results] at hres
+    obtain ⟨th, hth, hthr⟩ := List.mem_map.mp hres
+    obtain ⟨t, hlt, hget⟩ := List.getElem_of_mem hth
+    have hth' : (run (retort G .byId fuel evalFuel) (init reqs) σ).threads[t]? = some th := by
+      rw [List.getElem?_eq_getElem hlt, hget]
+    exact no_unbound_call G fuel evalFuel reqs σ t th hth' (by rw [hthr, hu])
+  · rw [complete_results G fuel evalFuel reqs hwt σ hturns]
+    symm
+    apply complete_results G fuel evalFuel reqs hwt
+    intro t r hr
+    have hlt : t < reqs.length := by
+      rcases Nat.lt_or_ge t reqs.length with h | h
+      · exact h
+      · rw [List.getElem?_eq_none h] at hr; cases hr
+    rw [count_sequentialSchedule hlt]
+    exact le_seqBound _ reqs r (List.mem_of_getElem? hr)
 
 /-! ### the unrepaired tree: stubs equal by location -/
 
@@ -128,6 +222,12 @@ example :
     (results (run (retort chainG .byId 12 16) (init [(1, 3), (1, 3)]) badSchedule)) =
       [some (unfold chainG 16 3 1), some (unfold chainG 16 3 1)] := by
   decide +kernel
+
+/-- the hypothesis of `all_schedules_safe` holds for the chain graph (and the loader of `Optional[Chain]`) -/
+example : WellTyped chainG 12 [(1, 3), (2, 5), (1, 0)] := by
+  intro r hr
+  simp only [List.mem_cons, List.mem_nil_iff, or_false] at hr
+  rcases hr with h | h | h <;> subst h <;> decide +kernel
 
 /-- non-vacuity of `every_thread_finishes`: the bound is reached by a real run -/
 example : allDone (run (retort chainG .byId 12 16) (init [(1, 3), (1, 3)]) badSchedule) = true := by
